@@ -150,6 +150,17 @@ func runDesc(sc M) {
 			if !bytes.Equal(w.Bytes(), in[:consumed]) {
 				fail("%s: encoding the decoded value gives %d bytes, the %d consumed bytes differ", tag, w.Len(), consumed)
 			}
+			// every spelling of the encoder gives the same bytes: Marshal, the package-level writers, and the certificate part on its own
+			var w3, w4 bytes.Buffer
+			signature.WriteEFIVariableAuthencation2(&w3, *d)
+			signature.WriteWinCertificateUEFIGUID(&w4, &d.AuthInfo)
+			if !bytes.Equal(w3.Bytes(), in[:consumed]) || !bytes.Equal(w4.Bytes(), in[16:consumed]) {
+				fail("%s: WriteEFIVariableAuthencation2 / WriteWinCertificateUEFIGUID disagree with the consumed bytes (%d / %d bytes)", tag, w3.Len(), w4.Len())
+			}
+			// the certificate part decoded on its own (ReadWinCertificateUEFIGUID) is the same certificate
+			if wc, err := signature.ReadWinCertificateUEFIGUID(bytes.NewReader(in[16:])); err != nil || wc.Header.Length != d.AuthInfo.Header.Length || wc.CertType != d.AuthInfo.CertType || !bytes.Equal(wc.CertData, d.AuthInfo.CertData) {
+				fail("%s: ReadWinCertificateUEFIGUID on the certificate part disagrees (%v)", tag, err)
+			}
 			// decode(encode(v)) = v
 			var d2 signature.EFIVariableAuthentication2
 			w2 := bytes.NewBuffer(append([]byte{}, w.Bytes()...))
